@@ -731,7 +731,9 @@ impl<const LEVELS: usize> OrderBook<LEVELS> {
     /// maintains the same id.
     ///
     /// If the price/vol are None then the original
-    /// price/vol are kept.
+    /// price/vol are kept. A new price that is not a
+    /// multiple of the tick-size is ignored (no change
+    /// is made).
     ///
     /// # Arguments
     ///
@@ -747,6 +749,12 @@ impl<const LEVELS: usize> OrderBook<LEVELS> {
         new_price: Option<Price>,
         new_vol: Option<Price>,
     ) {
+        // Prices off the tick grid are invalid (see `create_order`),
+        // like other invalid modifications the request is ignored
+        if new_price.is_some_and(|p| p % self.tick_size != 0) {
+            return;
+        }
+
         let mut order_entry = self.orders[order_id];
 
         if order_entry.order.status == Status::Active {
